@@ -875,6 +875,16 @@ func (fv *FuncVC) evalCall(env *SpecEnv, x *SCall) Val {
 		if pd, ok := fv.v.pures[id.Name]; ok {
 			return fv.applyPure(env, pd, x.Args)
 		}
+		// conversion T(x)
+		if len(x.Args) == 1 {
+			if t, err := fv.v.ResolveType(id.Name, env.pkg); err == nil {
+				v := fv.evalSpec(env, x.Args[0])
+				if len(v.C) == len(fv.m.Flatten(t)) {
+					return Val{T: t, C: v.C, St: v.St}
+				}
+				engineErr("conversion to %v from a value of different shape", t)
+			}
+		}
 		// Go function of the current package
 		if env.pkg != nil {
 			if fn := fv.v.funcsByKey[env.pkg.Path()+"::"+id.Name]; fn != nil {
